@@ -29,6 +29,9 @@ func init() {
 			{ID: "C07.R12", Floor: 2, Run: pointerAssertedFilters, Text: "pointer-asserted filter types are implemented by the pointer type only (= C10.R10)"},
 			{ID: "C07.R13", Floor: 1, Run: deactivateOnlyOnRetire, Text: "a table is marked inactive only by the retiring method (which also removes it from the target map and pushes its slot to the free list)"},
 			{ID: "C07.R14", Floor: 1, Run: cacheEntryMoves, Text: "moving cache entries keeps the id → position map exact: no bulk copy inside Cache.filters; after the removed id was deleted, the map is written only where the moved entry differs from the removed one (idx != last)"},
+			{ID: "C07.R15", Floor: 1, Run: relationAssertUnwrapped, Text: "relation filters are looked at unwrapped (= C03.R15): a batch operation through a registered relation filter keeps its target"},
+			{ID: "C07.R16", Floor: 3, Run: indexMapValuesArePositions, Text: "the archetype → position map holds positions: every Indices[k] = v has v = the range index of k, the index k was read from, or Len()-1 right after Add(k)"},
+			{ID: "C07.R17", Floor: 2, Run: handleParamsReadOnly, Text: "registered-filter handles are read-only (= C10.R13)"},
 		},
 	})
 }
